@@ -25,7 +25,7 @@ Integers are mathematical (`Int`) with the 32-byte size limit of `IntValFromBigI
 is exact here because every operand is bounded by a length (≤ 2^20) before it is used.
 Maps are kept sorted by key (`NeoVal.mapSet`), so KEYS / VALUES need no iteration-order parameter.
 Outside the model (`R.unmod`): SYSCALL, APPCALL, TAILCALL, the integer opcodes not listed in `modelledOp` (C13 models them), the hash /
-signature opcodes, EQUAL on two structs (`reflect.DeepEqual`, Go library code).
+signature opcodes, EQUAL on two structs (`reflect.DeepEqual`, Go library code), integer conversion of a byte array longer than 33 bytes.
 -/
 namespace OntVerif.Model.NeoExec
 open OntVerif.Util OntVerif.Model.Codec OntVerif.Model.NeoVal OntVerif.Model.NeoProg
@@ -853,9 +853,27 @@ def opThrowIfNot (m : M) : R M := do
     let (v, d) ← popAsBool m.heap m.eval
     if !v then .fault else pure { m with eval := d }
 
+/-- stack positions (0 = top) an opcode converts to an integer (`AsInt64` / `AsIntValue` / `AsBigInt`) -/
+def numericOperands (opn : Nat) : List Nat :=
+  if opn = 0x6D ∨ opn = 0x72 ∨ opn = 0x73 ∨ opn = 0x79 ∨ opn = 0x7A ∨ opn = 0x80 ∨ opn = 0x81 ∨ opn = 0xC1 ∨ opn = 0xC5 ∨ opn = 0xC6 ∨
+     opn = 0x6E ∨ opn = 0xC3 ∨ opn = 0xCA ∨ opn = 0x8B ∨ opn = 0x8C then [0]
+  else if opn = 0x7F ∨ opn = 0x93 ∨ opn = 0x94 ∨ opn = 0x9F ∨ opn = 0xA0 then [0, 1]
+  else if opn = 0xC4 then [1]
+  else []
+
+/-- a byte array longer than 33 bytes in a position that is converted to an integer: the conversion (`BigIntFromNeoBytes`, linear in Go) is
+outside the model — the mathematical `fromNeo` of a megabyte is not something the driver can evaluate. 33 bytes hold every boundary
+value of interest (±2^256). -/
+def longNumeric (d : Stack) (opn : Nat) : Bool :=
+  (numericOperands opn).any fun i =>
+    match d.reverse[i]? with
+    | some (.bytes b) => decide (b.length > 33)
+    | _ => false
+
 /-- `ExecuteOp(opcode, context)` for one opcode byte that has just been read (`m.pos` is behind it) -/
 def step (m : M) (opn : Nat) : R M :=
   if !modelledOp opn then .unmod else
+  if longNumeric m.eval opn then .unmod else
   -- checkFeaturesEnabled: HASKEY, KEYS, DCALL, VALUES
   if (opn = 0xCB ∨ opn = 0xCC ∨ opn = 0x6E ∨ opn = 0xCD) ∧ m.disableHasKey then .fault else
   if 0x01 ≤ opn ∧ opn ≤ 0x4B then opPushBytes m opn
